@@ -120,14 +120,14 @@ ComprS(h, X) == BM!Sigma1(X \o h)
 -----------------------------------------------------------------------------
 (* obj.h.  An object = header (keep, p_count, o_count), then the table of p_count pointers, the o_count object pointers
    first; keep = size of the fragment the object occupies.  hs = size of the header, ps = size of a pointer.
-   The driver decodes objects into nodes [r, at, keep, pc, oc, ptrs]: (r, at) = block and offset of the object
-   (r = 0: the top-level object under inspection), ptrs[i] = <<kind, block, offset>> with kind 0 null, 1 internal
-   (inside the top-level object, offset from its start), 2 external (another known block), 3 elsewhere.
+   The driver decodes objects into nodes [b, at, keep, pc, oc, ptrs]: (b, at) = block and offset of the object,
+   ptrs[i] = <<kind, block, offset>> with kind 0 null, 1 "own" = inside the fragment of the object owning the table
+   (offset from that object's start), 2 another address of a known block, 3 elsewhere.
    Layout rules => "работоспособный": object pointers are among the pointers, and header + table fit into keep;
    objIsOperable also demands it of the referenced ("вложенные") objects. *)
 Operable2(nd, hs, ps) == nd.oc <= nd.pc /\ hs + (ps * nd.pc) <= nd.keep
-PtrKey(p) == IF p[1] = 1 THEN <<0, p[3]>> ELSE <<p[2], p[3]>>
-NodeKey(nd) == <<nd.r, nd.at>>
+NodeKey(nd) == <<nd.b, nd.at>>
+PtrKey(nd, p) == IF p[1] = 1 THEN <<nd.b, nd.at + p[3]>> ELSE <<p[2], p[3]>>
 RECURSIVE OperableFrom(_, _, _, _)
 OperableFrom(nodes, k, hs, ps) ==
   /\ Operable2(nodes[k], hs, ps)
@@ -135,26 +135,39 @@ OperableFrom(nodes, k, hs, ps) ==
   /\ \A i \in 1..nodes[k].oc :
         LET p == nodes[k].ptrs[i]
         IN /\ p[1] \in {1, 2}
-           /\ \E j \in 1..Len(nodes) : NodeKey(nodes[j]) = PtrKey(p) /\ OperableFrom(nodes, j, hs, ps)
+           /\ \E j \in 1..Len(nodes) : NodeKey(nodes[j]) = PtrKey(nodes[k], p) /\ OperableFrom(nodes, j, hs, ps)
 Operable(nodes, hs, ps) == OperableFrom(nodes, 1, hs, ps)
 
 \* the objects reachable from the first node through object pointers
 Succ(nodes, k) == {j \in 1..Len(nodes) : \E i \in 1..Min2(nodes[k].oc, Len(nodes[k].ptrs)) :
-                      nodes[k].ptrs[i][1] \in {1, 2} /\ PtrKey(nodes[k].ptrs[i]) = NodeKey(nodes[j])}
+                      nodes[k].ptrs[i][1] \in {1, 2} /\ PtrKey(nodes[k], nodes[k].ptrs[i]) = NodeKey(nodes[j])}
 Reach(nodes) == FoldLeft(LAMBDA R, t : R \cup UNION {Succ(nodes, k) : k \in R}, {1}, Upto(Len(nodes)))
 
-(* Moving an object by delta: "Ссылки на внутренние участки обновляются при перемещении объекта ... Внешние ссылки
-   остаются постоянными".  In the decoded form (internal pointers are offsets from the top-level object) a correct copy
-   therefore decodes to exactly the nodes of the source; Rebase places a decoded object at offset delta of a container. *)
-Rebase(nd, delta) ==
-  [nd EXCEPT !.at = IF nd.r = 0 THEN @ + delta ELSE @,
-             !.ptrs = [i \in 1..Len(nd.ptrs) |-> IF nd.ptrs[i][1] = 1 THEN <<1, 0, nd.ptrs[i][3] + delta>> ELSE nd.ptrs[i]]]
+(* Moving the fragment frag = <<block, offset, size>> to the address to = <<block, offset>>: "Ссылки на внутренние участки
+   обновляются при перемещении объекта ... Внешние ссылки остаются постоянными при перемещении объекта".  Every object
+   lying in the fragment moves with it; for each of them the references into ITS OWN fragment (kind 1, relative) follow,
+   all other references (kind 2, absolute) keep their value -- also those of a nested object that point into the
+   enclosing object but outside the nested object itself. *)
+InFrag(nd, frag) == nd.b = frag[1] /\ nd.at >= frag[2] /\ nd.at < frag[2] + frag[3]
+\* an absolute reference keeps its value, but after an overlapping move it may come to lie inside the new fragment of its owner:
+\* the decoder then reports it as "own" -- the same address, named differently
+NormPtr(nd, p) == IF p[1] = 2 /\ p[2] = nd.b /\ p[3] >= nd.at /\ p[3] < nd.at + nd.keep THEN <<1, 0, p[3] - nd.at>> ELSE p
+MoveNode(nd, frag, to) ==
+  IF InFrag(nd, frag)
+  THEN LET m == [nd EXCEPT !.b = to[1], !.at = (@ - frag[2]) + to[2]]
+       IN [m EXCEPT !.ptrs = [i \in 1..Len(m.ptrs) |-> NormPtr(m, m.ptrs[i])]]
+  ELSE nd
+MoveNodes(nodes, frag, to) == [k \in 1..Len(nodes) |-> MoveNode(nodes[k], frag, to)]
+FragOf(nd) == <<nd.b, nd.at, nd.keep>>
+\* objCopy(dest, src): the object src and everything nested in it, at the address dest
+CopyResult(S, to) == MoveNodes(S, FragOf(S[1]), to)
 (* objAppend(dest, src, i): "Объект src записывается в конец объекта [dest]. В i-ую ячейку таблицы указателей dest
-   записывается ссылка на копию src. Длина dest увеличивается на длину src."  All candidate nodes of the result: *)
+   записывается ссылка на копию src. Длина dest увеличивается на длину src."  The objects of the result are those
+   reachable from the new dest: *)
 AppendNodes(D, S, i) ==
   LET root == D[1]
       root2 == [root EXCEPT !.keep = @ + S[1].keep, !.ptrs = [root.ptrs EXCEPT ![i + 1] = <<1, 0, root.keep>>]]
-  IN [k \in 1..Len(D) |-> IF k = 1 THEN root2 ELSE D[k]] \o [k \in 1..Len(S) |-> Rebase(S[k], root.keep)]
+  IN [k \in 1..Len(D) |-> IF k = 1 THEN root2 ELSE D[k]] \o CopyResult(S, <<root.b, root.at + root.keep>>)
 AppendResult(D, S, i) == LET c == AppendNodes(D, S, i) IN {c[k] : k \in Reach(c)}
 
 -----------------------------------------------------------------------------
